@@ -73,9 +73,11 @@ func (q *QSpec) SQL() string {
 		}
 	}
 	if q.Limit > 0 {
-		sb.WriteString(fmt.Sprintf(" LIMIT %d", q.Limit))
+		// the dialect writes LIMIT <offset>, <rowcount>
 		if q.Offset > 0 {
-			sb.WriteString(fmt.Sprintf(" OFFSET %d", q.Offset))
+			sb.WriteString(fmt.Sprintf(" LIMIT %d, %d", q.Offset, q.Limit))
+		} else {
+			sb.WriteString(fmt.Sprintf(" LIMIT %d", q.Limit))
 		}
 	}
 	return sb.String()
